@@ -40,7 +40,15 @@ var solvers = []solverSpec{
 }
 
 func (o *Obligation) query(withModel bool) string {
+	s, _ := o.queryText(withModel, false)
+	return s
+}
+
+// queryText builds the query; with slice it leaves out hypotheses about uninterpreted
+// functions foreign to the goal (see sliceByGoalUFs) and reports whether that removed anything.
+func (o *Obligation) queryText(withModel, slice bool) (string, bool) {
 	var b strings.Builder
+	sliced := false
 	lines := o.VC.sc.lines[:o.Pos]
 	np := o.VC.preludeLen
 	if np > len(lines) {
@@ -86,6 +94,18 @@ func (o *Obligation) query(withModel bool) string {
 	}
 	if o.Expect != "sat" {
 		kept = dropOffPathFacts(kept, o.Goal)
+		if slice {
+			ufs := []string{"xor8", "and8", "or8"}
+			for n := range o.VC.eng.ufs {
+				ufs = append(ufs, sym(n))
+			}
+			for _, rd := range o.VC.recDefs {
+				if rd.fname != "" {
+					ufs = append(ufs, rd.fname)
+				}
+			}
+			kept, sliced = sliceByGoalUFs(kept, o.Goal, ufs)
+		}
 	}
 	for _, l := range dropDeadDecls(kept, o.Goal) {
 		b.WriteString(l)
@@ -99,7 +119,7 @@ func (o *Obligation) query(withModel bool) string {
 			b.WriteString("(get-model)\n")
 		}
 	}
-	return b.String()
+	return b.String(), sliced
 }
 
 // solverSlots bounds the number of solver processes running at once (one per core):
@@ -205,6 +225,21 @@ func discharge(o *Obligation, workdir string, idx int, timeout int, all bool) {
 	quickT := 3
 	if timeout < quickT {
 		quickT = timeout
+	}
+	// first the goal-directed slice (hypotheses about functions foreign to the goal left out):
+	// unsat there is unsat of the full query; anything else says nothing
+	if o.Expect != "sat" {
+		if sq, changed := o.queryText(false, true); changed {
+			sfile := filepath.Join(workdir, fmt.Sprintf("q%04d.sliced.smt2", idx))
+			os.WriteFile(sfile, []byte(sq), 0o644)
+			ctx0, cancel0 := context.WithCancel(context.Background())
+			r0, _ := runSolver(ctx0, solvers[0], sfile, quickT)
+			cancel0()
+			if r0 == "unsat" {
+				o.Result, o.Solver = "unsat", solvers[0].name+"/sliced"
+				return
+			}
+		}
 	}
 	ctx, cancel := context.WithCancel(context.Background())
 	r, text := runSolver(ctx, solvers[0], file, quickT)
